@@ -9,6 +9,10 @@ package main
 import (
 	"bytes"
 	"context"
+	"crypto"
+	"crypto/rsa"
+	"crypto/sha1"
+	"crypto/sha256"
 	"crypto/x509"
 	"encoding/json"
 	"encoding/pem"
@@ -23,6 +27,7 @@ import (
 
 	"chainguard.dev/apko/pkg/apk/apk"
 	apkfs "chainguard.dev/apko/pkg/apk/fs"
+	sign "chainguard.dev/apko/pkg/apk/signature"
 	"github.com/chainguard-dev/clog"
 )
 
@@ -530,6 +535,61 @@ func isPem(k isKeyCfg) []byte {
 	}
 }
 
+// a PKIX public key that is not RSA
+const isECKeyPEM = "-----BEGIN PUBLIC KEY-----\nMFkwEwYHKoZIzj0CAQYIKoZIzj0DAQcDQgAETrKi3e8RANoQheNrw3d6BmilbwUZ\nx/lNSQhYogjaxTcQrE6iCZdgKtcW2RlUsFh4wedo9dRMopXMCozBZsFsAw==\n-----END PUBLIC KEY-----\n"
+
+// isKeyTrials: sign.RSAVerifyDigest itself on one configured key file (every spelling the generator knows), against
+// Model/IndexSig.lean `rsaVerifyDigest`. The harness tells the model what the LIBRARIES answer for this file (is
+// there a first PEM block; does it parse as PKIX, and to an RSA key; does the signature verify under that key) —
+// obtained by calling encoding/pem, crypto/x509 and crypto/rsa directly — and the model chains the checks.
+func isKeyTrials(k isKeyCfg) []Step {
+	signer := k.Pem
+	if signer < 0 || signer > 2 {
+		signer = 0
+	}
+	return isKeyFileTrials(fmt.Sprintf("key file pem%d/form%d", k.Pem, k.Form), isPem(k), signer)
+}
+
+func isKeyFileTrials(what string, file []byte, signer int) []Step {
+	var steps []Step
+	data := []byte("bytes that follow the signature member")
+	blk, _ := pem.Decode(file)
+	class := "err"
+	var pub *rsa.PublicKey
+	if blk != nil {
+		if pk, err := x509.ParsePKIXPublicKey(blk.Bytes); err == nil {
+			class = "notrsa"
+			if p, ok := pk.(*rsa.PublicKey); ok {
+				class, pub = "rsa", p
+			}
+		}
+	}
+	keys := isGetKeys()
+	for _, alg := range []string{"1", "256"} {
+		h, sum := crypto.SHA1, func(b []byte) []byte { d := sha1.Sum(b); return d[:] }
+		if alg == "256" {
+			h, sum = crypto.SHA256, func(b []byte) []byte { d := sha256.Sum256(b); return d[:] }
+		}
+		for _, by := range []int{signer, (signer + 1) % 3} {
+			sig := isSign(keys[by].priv, alg, data)
+			for _, digest := range [][]byte{sum(data), sum(data)[:h.Size()-1], append(sum(data), 0)} {
+				ver := 0
+				if pub != nil && len(digest) == h.Size() && rsa.VerifyPKCS1v15(pub, h, digest, sig) == nil {
+					ver = 1
+				}
+				out := "err"
+				if sign.RSAVerifyDigest(digest, h, sig, file) == nil {
+					out = "ok"
+				}
+				line := fmt.Sprintf("is.key\t%s\t%d\t%d\t%s\t%d", alg, len(digest), isB2I(blk != nil), class, ver)
+				steps = append(steps, Step{Line: line, Go: out, Desc: fmt.Sprintf("RSAVerifyDigest(sha%s digest of %d bytes, signature by key %d, %s)", alg, len(digest), by, what),
+					Tags: []string{"keyfile:" + class + ":" + out}, Trivial: out == "err" && class != "rsa"})
+			}
+		}
+	}
+	return steps
+}
+
 func isErrKind(err error) string {
 	m := err.Error()
 	for _, kv := range [][2]string{
@@ -720,6 +780,19 @@ func (indexsigSuite) Run(raw json.RawMessage) []Step {
 		for _, st := range c.Steps {
 			steps = append(steps, isParseOne(b, st, what, tags)...)
 			steps = append(steps, isCheckStep(st))
+		}
+		seenKeys := map[string]bool{}
+		for _, st := range c.Steps {
+			for _, k := range st.Keys {
+				id := fmt.Sprintf("%d/%d", k.Pem, k.Form)
+				if !seenKeys[id] {
+					seenKeys[id] = true
+					steps = append(steps, isKeyTrials(k)...)
+				}
+			}
+		}
+		if !seenKeys["ec"] {
+			steps = append(steps, isKeyFileTrials("EC P-256 PKIX key", []byte(isECKeyPEM), 0)...)
 		}
 		return steps
 	case "multi", "world":
